@@ -223,4 +223,73 @@ def repeatedSumHistory : List COp :=
    .query (.sumd .sub [(7, 2, 1), (5, 3, 1)] [(7, 2, 1), (5, 2, 1)] 5 1),
    .query (.derived [(7, 2, 1), (5, 3, 1)])]
 
+/-! ### value-bearing arithmetic on derived operands: an uninterpreted function of (registry, expression) -/
+
+/-- **an arithmetic question is answered from the registry alone**: for EVERY function `ar` giving the
+meaning of expressions over a registry, two sessions over the same registry — whatever their memo
+tables hold — give the same answer, and the step leaves the registry as it was -/
+theorem arith_answer_ignores_caches {α : Type} (ar : Registry → VExpr → α) (s s' : CState) (h : s.reg = s'.reg)
+    (e : VExpr) :
+    (xstep lg ar s (.arith e)).2 = (xstep lg ar s' (.arith e)).2 ∧ (xstep lg ar s (.arith e)).1.reg = s.reg := by
+  simp only [xstep, h, and_self]
+
+/-- every step of a session with arithmetic questions keeps the session invariant -/
+theorem xstep_preserves_Inv {α : Type} (ar : Registry → VExpr → α) {s : CState} (h : Inv lg s) {op : XOp}
+    (hc : xopClean lg op = true) : Inv lg (xstep lg ar s op).1 := by
+  cases op with
+  | base op => exact cstep_preserves_Inv lg h (op := op) hc
+  | arith e => exact h
+
+/-- **warm = fresh for every history with arithmetic questions, for every meaning `ar` of the
+arithmetic**: each step of any interleaving of registrations, queries, failing operations and
+value-bearing expressions (products, quotients, sums of derived operands, asked repeatedly and in any
+order) has the outcome it has on a database freshly built from the registrations made before it.
+(The correspondence check evaluates `ar` on the real code: a new database, the same registrations.) -/
+theorem xwarm_eq_fresh_partial {α : Type} (ar : Registry → VExpr → α) {s : CState} (h : Inv lg s) (ops : List XOp)
+    (hc : ops.all (xopClean lg) = true) :
+    xoutputs lg ar s ops = xfreshOutputs lg ar s.reg ops := by
+  induction ops generalizing s with
+  | nil => rfl
+  | cons op ops ih =>
+    simp only [List.all_cons, Bool.and_eq_true] at hc
+    have hi := xstep_preserves_Inv lg ar h hc.1
+    cases op with
+    | arith e =>
+      simp only [xoutputs, xfreshOutputs]
+      rw [ih hi hc.2]
+      simp only [xstep]
+    | base op =>
+      cases op with
+      | query q =>
+        simp only [xoutputs, xfreshOutputs]
+        rw [ih hi hc.2]
+        simp only [xstep, cstep, refinement_partial lg h q, answer_reg]
+      | reg op =>
+        simp only [xoutputs, xfreshOutputs]
+        rw [ih hi hc.2]
+        simp only [xstep, (cstep_reg_out lg s op).1, (cstep_reg_out lg s op).2]
+
+/-! ### several private databases alive at the same time -/
+
+/-- **every database answers as if it were alone, and as a fresh one**: in any interleaving of
+histories addressed to a family of private databases, the outcomes of the steps addressed to
+database `i` are those of a database freshly built from the registrations addressed to `i` — what
+was asked of, or registered in, the other databases is invisible (for every meaning `ar` of the
+arithmetic) -/
+theorem warm_eq_fresh_many_partial {α : Type} (ar : Registry → VExpr → α) (s : Nat → CState) (i : Nat)
+    (h : Inv lg (s i)) (ops : List (Nat × XOp)) (hc : (partOf i ops).all (xopClean lg) = true) :
+    partOf i (outputsN (xstep lg ar) s ops) = xfreshOutputs lg ar (s i).reg (partOf i ops) := by
+  rw [outputsN_part, fouts_xstep, xwarm_eq_fresh_partial lg ar h _ hc]
+
+/-- a history with three arithmetic questions (1 = length, 2 = m, 3 = cm, 5 = category): `2 m * (3 cm)^2`,
+`2 m * (3 cm)^3`, then the first again -/
+def arithHistory : List XOp :=
+  [.base (.reg (.addUnitBase (.str 1) 10 (.str 2))),
+   .base (.reg (.addUnit (.str 1) 11 (.str 3) (.mob ⟨0, 100, 1, 0⟩) (.mob ⟨0, 1, 100, 0⟩) 0)),
+   .base (.reg (.addCategory ⟨.str 5, some 1, none, false, none, none, none, none, false, false, 0, none⟩)),
+   .arith (.bin .mul (.scalar 5 2 2) (.bin .mul (.scalar 5 3 3) (.scalar 5 3 3))),
+   .arith (.bin .mul (.scalar 5 2 2) (.bin .mul (.scalar 5 3 3) (.bin .mul (.scalar 5 3 3) (.scalar 5 3 3)))),
+   .base (.query (.check 5 3)),
+   .arith (.bin .mul (.scalar 5 2 2) (.bin .mul (.scalar 5 3 3) (.scalar 5 3 3)))]
+
 end Barril.Reg
